@@ -362,6 +362,11 @@ class PathCtx:
     # ------------------------------------------------------------ proving
     def prove(self, name, clause_text, f, info=None, assume_after=True):
         """Obligation: pc => f."""
+        if getattr(self, "skip_prove", False):
+            # this path's obligations are proved by another shard of the same function (contract option `shards`)
+            if assume_after:
+                self.assume(f if not isinstance(f, bool) else z3.BoolVal(f))
+            return None
         t0 = time.time()
         f = z3.simplify(f) if not isinstance(f, bool) else z3.BoolVal(f)
         status, backend, model = None, "syntactic", None
